@@ -22,6 +22,11 @@ def rename_components(case, mapping):
     """the same case with path components renamed (e.g. b -> ab: sibling names one of which is a string prefix of the
     other - `out/a` versus `out/ab` - which code that compares paths as strings gets wrong)"""
     import copy
+    import json as _json
+    # a case that already uses one of the new names would get two paths merged: leave it alone
+    text = _json.dumps(case)
+    if any(('/%s' % v) in text or ('"%s' % v) in text for v in mapping.values()):
+        return case
     c = copy.deepcopy(case)
 
     def rp(p):
